@@ -2182,8 +2182,24 @@ impl<'a, const C: usize, const R: usize, T: 'a + Copy + std::fmt::Debug> Layout<
                 .active_held_layers()
                 .take(MAX_ACTIVE_LAYERS - 2)
                 .collect::<LayerStack>();
-            let _ = v.push(self.default_layer as u16);
-            if self.delegate_to_first_layer && current_layer != 0 && self.default_layer != 0 {
+            // A layer that is active more than once (held by two keys, or held and also the
+            // default layer) is searched once, at its first position: "the layers below this one"
+            // must not contain the layer itself again, or a transparent action that is resolved
+            // from below finds the action it came from.
+            let mut seen = LayerStack::new();
+            v.retain(|layer| {
+                let first = !seen.contains(layer);
+                let _ = seen.push(*layer);
+                first
+            });
+            if !v.contains(&(self.default_layer as u16)) {
+                let _ = v.push(self.default_layer as u16);
+            }
+            if self.delegate_to_first_layer
+                && current_layer != 0
+                && self.default_layer != 0
+                && !v.contains(&0)
+            {
                 let _ = v.push(0);
             }
             v
